@@ -1,4 +1,4 @@
-"""C09 -- computing changes is pure; performing touches only what was announced (R09.1-R09.9)."""
+"""C09 -- computing changes is pure; performing touches only what was announced (R09.1-R09.10)."""
 from __future__ import annotations
 
 import ast
@@ -22,6 +22,7 @@ EXPLANATION = (
     "(which may live outside the project).  R09.6: explicit raises in the refactoring modules raise RopeError "
     "subclasses; no assert tests the analysed program's AST.  R09.7: every element that enters the project's cached file listing (what project-wide refactorings iterate) is dominated by a negative is_ignored test of that element.  R09.8: the 'inside this folder / inside the project root' tests compare "
     "paths with a prefix that ends in the separator.  R09.9: the analysis callback that runs inside every write absorbs ModuleSyntaxError.  Implicit internal exceptions are not decided."
+    ' R09.10: a find_module result is tested for None before use in the refactoring modules.'
 )
 ASSUMPTIONS = [
     "callee resolution without a type checker: see DESIGN.md section 2 (E2)",
@@ -280,6 +281,7 @@ def check(ctx, res) -> None:
     common.file_list_filter_rule(ctx, res, "R09.7")
     common.prefix_boundary_rule(ctx, res, "R09.8", ["rope.base.resources.Folder.contains", "rope.base.libutils.relative"])
     common.soa_observer_rule(ctx, res, "R09.9")
+    _optional_module_rule(ctx, res)
 
 
 def _fixture_control(ctx, res) -> None:
@@ -770,3 +772,51 @@ def _mentions_user_ast(f: FuncInfo, a: ast.Assert) -> Optional[str]:
         if isinstance(subj, ast.Name) and ("AssignedName" in kinds or "ast." in kinds and subj.id in ("node", "name", "child")):
             return f"isinstance({subj.id}, {kinds})"
     return None
+
+
+def _optional_module_rule(ctx, res) -> None:
+    """R09.10: `find_module` answers None for a module it cannot find.  In the refactoring modules a variable bound to its
+    result is dereferenced only where a None test of that variable has been passed (edge dominance): otherwise a request
+    naming a non-existent module ends in AttributeError -- an internal exception instead of a refusal."""
+    from ..cfg import CFG
+
+    idx = ctx.idx
+    n = 0
+    for f in sorted(idx.functions.values(), key=lambda f: f.qualname):
+        if not (f.unit.modname.startswith("rope.refactor.") or f.unit.modname.startswith("rope.contrib.autoimport")):
+            continue
+        vars_ = {}
+        for x in walk_local(f.node):
+            if isinstance(x, ast.Assign) and isinstance(x.value, ast.Call) and call_name(x.value) in ("find_module", "find_relative_module") \
+                    and len(x.targets) == 1 and isinstance(x.targets[0], ast.Name):
+                vars_[x.targets[0].id] = x
+        if not vars_:
+            continue
+        cfg = CFG(f.node)
+
+        def tested(t, pol, v) -> bool:
+            if isinstance(t, ast.Compare) and len(t.ops) == 1 and isinstance(t.left, ast.Name) and t.left.id == v \
+                    and isinstance(t.comparators[0], ast.Constant) and t.comparators[0].value is None:
+                return (isinstance(t.ops[0], ast.Is) and not pol) or (isinstance(t.ops[0], ast.IsNot) and pol)
+            if isinstance(t, ast.Name) and t.id == v:
+                return pol
+            return False
+
+        for v, asg in sorted(vars_.items()):
+            uses = []
+            for nd in cfg.nodes:
+                if nd.ast is None or nd.kind not in ("stmt", "test") or nd.ast is asg:
+                    continue
+                for y in ast.walk(nd.ast):
+                    if isinstance(y, ast.Attribute) and isinstance(y.value, ast.Name) and y.value.id == v and isinstance(y.ctx, ast.Load):
+                        uses.append((nd, y))
+            if not uses:
+                continue
+            n += 1
+            bad = [(nd, y) for nd, y in uses if not any(tested(t, pol, v) for t, pol in cfg.guards(nd.id))]
+            # a use inside the assignment's own later re-binding etc. is not excluded: keep it simple and strict
+            res.add("R09.10", f"{f.qualname.split('.', 2)[-1]}|{v}", not bad, f"{f.unit.rel}:{(bad[0][1] if bad else asg).lineno}",
+                    f"`{v}` (a find_module result) is dereferenced only after a None test" if not bad else
+                    f"`{v}` holds the result of find_module and is dereferenced as `{ast.unparse(bad[0][1])}` without a dominating None test: a request that "
+                    "names a module which does not exist raises AttributeError instead of the library's refusal", function=f.qualname)
+    res.floor("R09.10", "find_module results dereferenced in the refactoring modules", n, 1)
